@@ -399,7 +399,26 @@ func cdcRndSVKind(g *G, kind int) llo.StreamValue {
 	case 0:
 		return llo.ToDecimal(cdcRndDec(g))
 	case 1:
-		return &llo.Quote{Bid: cdcRndDec(g), Benchmark: cdcRndDec(g), Ask: cdcRndDec(g)}
+		q := &llo.Quote{Bid: cdcRndDec(g), Benchmark: cdcRndDec(g), Ask: cdcRndDec(g)}
+		// components that coincide, exactly or only numerically (same number, another exponent)
+		same := func(d decimal.Decimal) decimal.Decimal {
+			if g.R.Intn(2) == 0 && d.Exponent() > math.MinInt32+8 {
+				k := int32(1 + g.R.Intn(6))
+				return decimal.NewFromBigInt(new(big.Int).Mul(d.Coefficient(), new(big.Int).Exp(big.NewInt(10), big.NewInt(int64(k)), nil)), d.Exponent()-k)
+			}
+			return d
+		}
+		switch g.R.Intn(12) {
+		case 0:
+			q.Ask = same(q.Bid)
+		case 1:
+			q.Benchmark = same(q.Bid)
+		case 2:
+			q.Ask = same(q.Benchmark)
+		case 3:
+			q.Benchmark, q.Ask = same(q.Bid), same(q.Bid)
+		}
+		return q
 	case 2:
 		return &llo.TimestampedStreamValue{ObservedAtNanoseconds: cdcRndU64(g), StreamValue: cdcRndSVKind(g, 0)}
 	case 3:
@@ -738,6 +757,9 @@ func genC10(g *G) {
 }
 
 func cdcMustSVMsg(v llo.StreamValue) *llo.LLOStreamValue {
+	// announced to the watchdog as the observation that carries just this value (the same call, as an op)
+	defer watchOp(J{"op": "obs.encode", "sigma": 1, "obs": J{"attested": nil, "retire": false, "ts": "0", "removes": []any{}, "updates": []any{},
+		"values": []any{J{"sid": "1", "v": svJ(v)}}}})()
 	b, err := v.MarshalBinary()
 	if err != nil {
 		panic(err)
